@@ -500,16 +500,16 @@ pub proof fn lemma_inv_frame(f0: &Fsm, f: &Fsm, ga: &GlobalData, gb: &GlobalData
     ensures
         loop_inv(f0, f, gb),
 {
-    let gm = GlobalData { statesToInvoke: gb.statesToInvoke, ..*ga };
-    assert(sess_wf(f, &gm)) by {
-        assert forall|h: u32| hv_has(&gm, h) implies #[trigger] hv_entry_ok(f, &gm, h) by {
-            assert(hv_entry_ok(f, ga, h));
-        }
-        assert forall|h: u32| hv_has(&gm, h) implies all_valid(f, #[trigger] hv_get(&gm, h)) by {
-            assert(all_valid(f, hv_get(ga, h)));
-        }
+    assert forall|h: u32| hv_has(gb, h) implies #[trigger] hv_entry_ok(f, gb, h) by {
+        assert(hv_has(ga, h));
+        assert(hv_get(ga, h) == hv_get(gb, h));
+        assert(hv_entry_ok(f, ga, h));
     }
-    lemma_sess_frame(f, &gm, gb);
+    assert forall|h: u32| hv_has(gb, h) implies all_valid(f, #[trigger] hv_get(gb, h)) by {
+        assert(hv_has(ga, h));
+        assert(hv_get(ga, h) == hv_get(gb, h));
+        assert(all_valid(f, hv_get(ga, h)));
+    }
     lemma_kids_sub(f, ga, gb);
 }
 
